@@ -222,7 +222,7 @@ theorem rows_ok_of_settled {w : World} (hinv : DInv R cyc w) {f : Nat} {r : Rec}
     have hfc : f ∉ cyc := fun h => by rw [hcy h] at hcc; cases hcc
     obtain ⟨hf0, c, hc, hcR, hor⟩ := hV
     have hgen : (getRec w R f).isGenerated = true := by rw [← hsnap.gen hf0]; exact hg
-    have hov : (getRec w R f).isOverride = false := by rw [← hsnap.ovr]; exact ho
+    have hov : (getRec w R f).isOverride = false := by rw [← hsnap.ovr (by first | exact hf0 | exact hcf)]; exact ho
     have hcc' : c = ch := by
       have := hsnap.changed
       rw [hch, hc] at this
@@ -304,7 +304,7 @@ theorem depsWithRecs_pre (hR : 0 < R) {w : World} (hinv : DInv R cyc w) {f mx ch
       · exact h hfc
       · rw [h.2 hfc] at hcc; cases hcc
     have hgen : (getRec w R f).isGenerated = true := by rw [← hsnap.gen hcf]; exact hg
-    have hov : (getRec w R f).isOverride = false := by rw [← hsnap.ovr]; exact ho
+    have hov : (getRec w R f).isOverride = false := by rw [← hsnap.ovr (by first | exact hf0 | exact hcf)]; exact ho
     exact .inl ((hinv.j f hfc hV hcc hgen hov d hdw hdt).1 hm).2
 
 theorem isDirty_spec (hR : 0 < R) : ∀ (fuel : Nat) (w : World) (cache : List Nat) (f mx : Nat) (seen : List Nat)
@@ -404,8 +404,8 @@ theorem isDirty_spec (hR : 0 < R) : ∀ (fuel : Nat) (w : World) (cache : List N
         refine ⟨iv, st, (fun h => absurd h hdr.1), (fun hs' _ => absurd hs'.1 hnV), ?_, hdr.2⟩
         intro _ _ _ _
         rintro ⟨h0, _⟩
-        have hself : getRec (setRec w f { r with isGenerated := false, failed := some 0 }) R f =
-            { r with isGenerated := false, failed := some 0 } := by
+        have hself : getRec (setRec w f { r with isGenerated := false, isOverride := false, failed := some 0 }) R f =
+            { r with isGenerated := false, isOverride := false, failed := some 0 } := by
           apply getRec_setRec_self
           intro h00
           subst h00
